@@ -170,6 +170,26 @@ pub fn check_size(id: u8, w: u32, h: u32, all_pixels: bool, lengths: bool) -> (u
     }
 }
 
+/// Page::new for a SEQUENCE of sizes on one fresh thread (sizes chosen to share their padded length but not their
+/// data length): every page must follow the layout as if it were the first one created.
+pub fn check_new_sequence(sizes: Vec<(u8, u32, u32)>) -> Vec<(&'static str, String, String)> {
+    crate::util::in_fresh_thread(move || {
+        for (k, &(id, w, h)) in sizes.iter().enumerate() {
+            let r = catch(|| Page::new(PageId(id), w, h).as_bytes().to_vec());
+            let want = ref_blank(id, w as u64, h as u64);
+            match r {
+                Err(p) => return vec![("no-panic", p.class(), format!("Page::new({}x{}) panicked: {}", w, h, p.message))],
+                Ok(b) if b != want => {
+                    let clause = if k == 0 { "new-page-layout" } else { "history-independent" };
+                    return vec![(clause, format!("step-{}", k.min(2)), format!("Page::new({}, {}x{}) as call #{} on one thread (after {:?}) differs from the layout at byte {:?}", id, w, h, k, &sizes[..k], b.iter().zip(want.iter()).position(|(x, y)| x != y)))];
+                }
+                _ => {}
+            }
+        }
+        vec![]
+    })
+}
+
 pub fn run(ctx: &Ctx) -> Report {
     let mut rep = Report::new(ctx);
     let thorough = ctx.tier.thorough();
@@ -214,6 +234,40 @@ pub fn run(ctx: &Ctx) -> Report {
     for a in accs {
         all.merge(ID, a);
     }
+    // sequences: group the sizes of a box by padded length; all ordered pairs (and chains of three) inside a group
+    let mut groups: std::collections::BTreeMap<u64, Vec<(u32, u32)>> = Default::default();
+    for w in 1..=24u32 {
+        for h in [1u32, 7, 8, 9, 12, 16, 17] {
+            groups.entry(padded(w as u64, h as u64)).or_default().push((w, h));
+        }
+    }
+    for &(w, h) in &[(90u32, 7u32), (85, 7), (40, 12), (30, 10), (28, 10), (96, 8), (92, 8), (160, 16), (158, 16)] {
+        groups.entry(padded(w as u64, h as u64)).or_default().push((w, h));
+    }
+    let mut seqs: Vec<Vec<(u8, u32, u32)>> = vec![];
+    for (_, g) in groups.iter() {
+        for (i, a) in g.iter().enumerate() {
+            for (j, b) in g.iter().enumerate() {
+                if i != j && data_end(a.0 as u64, a.1 as u64) != data_end(b.0 as u64, b.1 as u64) && (i + j) % 3 != 2 {
+                    seqs.push(vec![(1, a.0, a.1), (2, b.0, b.1)]);
+                    if let Some(c) = g.get((j + 1) % g.len()) {
+                        seqs.push(vec![(1, a.0, a.1), (2, b.0, b.1), (3, c.0, c.1)]);
+                    }
+                }
+            }
+        }
+    }
+    let accs = par_range(seqs.len() as u64, 8, Acc::default, |acc, i| {
+        acc.evals += seqs[i as usize].len() as u64;
+        acc.outcomes.add("new-sequence");
+        for (clause, class, detail) in check_new_sequence(seqs[i as usize].clone()) {
+            acc.violation(ID, Violation::new(clause, class, detail, json!({"kind": "new-sequence", "sizes": seqs[i as usize].iter().map(|s| json!([s.0, s.1, s.2])).collect::<Vec<_>>()}), (1u64 << 50) + i));
+        }
+    });
+    for a in accs {
+        all.merge(ID, a);
+    }
+    rep.set("page_new_sequences", json!(seqs.len()));
     all.samples.push(json!({"size": "30x10", "padded_bytes": padded(30, 10), "pixel (29,9)": {"byte": 4 + 29 * 2 + 1, "bit": 1}}));
     all.samples.push(json!({"size": "5x17 (3 bytes per column)", "padded_bytes": padded(5, 17), "pixel (1,16)": {"byte": 4 + 3 + 2, "bit": 0}}));
     let nt = rep.absorb(all);
@@ -227,6 +281,10 @@ pub fn run(ctx: &Ctx) -> Report {
 }
 
 pub fn replay(_ctx: &Ctx, case: &Value) -> Result<Vec<Violation>, String> {
+    if case["kind"].as_str() == Some("new-sequence") {
+        let sizes: Vec<(u8, u32, u32)> = case["sizes"].as_array().ok_or("sizes")?.iter().map(|s| (s[0].as_u64().unwrap() as u8, s[1].as_u64().unwrap() as u32, s[2].as_u64().unwrap() as u32)).collect();
+        return Ok(check_new_sequence(sizes).into_iter().map(|(c, k, d)| Violation::new(c, k, d, case.clone(), 0)).collect());
+    }
     if case["kind"].as_str() != Some("size") {
         return Err("unknown case kind".into());
     }
